@@ -8,6 +8,8 @@ import SplinkVerif.Drv.EM
 import SplinkVerif.Drv.Estimators
 import SplinkVerif.Drv.Cache
 import SplinkVerif.Drv.GraphMetrics
+import SplinkVerif.Drv.Descriptive
+import SplinkVerif.Drv.Accuracy
 /-! Line-protocol driver: one JSON object per input line, one JSON object per output line. -/
 open Lean SplinkVerif.Drv
 
@@ -26,6 +28,10 @@ def dispatch (j : Json) : Except String Json := do
   | "estim" => handleEstim j
   | "cache_trace" => handleCacheTrace j
   | "graphmetrics" => handleGraphMetrics j
+  | "descriptive" => handleDescriptive j
+  | "acc_truth" => handleAccTruth j
+  | "acc_errors" => handleAccErrors j
+  | "acc_prepare" => handleAccPrepare j
   | "ping" => pure (Json.mkObj [("pong", Json.bool true)])
   | _ => throw s!"unknown op {op}"
 
